@@ -361,6 +361,7 @@ class RTFPage(BaseModel):
             self._set_landscape_defaults()
 
         self._validate_margin_length()
+        self._validate_table_width()
         return self
 
     def _set_portrait_defaults(self) -> None:
@@ -378,6 +379,14 @@ class RTFPage(BaseModel):
         self.margin = self.margin or [1.0, 1.0, 2, 1.25, 1.25, 1.25]
         self.col_width = self.col_width or self.width - 2.5
         self.nrow = self.nrow or 24
+
+    def _validate_table_width(self) -> None:
+        """Validate the table width derived from a custom paper width."""
+        if self.col_width is not None and self.col_width <= 0:
+            raise ValueError(
+                "Col_width must be greater than 0: page width "
+                f"{self.width} leaves no room for the table."
+            )
 
     def _validate_margin_length(self) -> None:
         """Validate that margin has exactly 6 values."""
